@@ -79,6 +79,10 @@ def check_file(ctx, stem, text_in, model=None, subdir="inputs", symlink_target=N
         except Timeout:
             ctx.count("skipped_nonterminating_input")
             return
+        except Exception as e:  # noqa
+            ctx.case(inp, True)
+            ctx.violation("input-read-as-denoted", inp, {"error": type(e).__name__, "msg": str(e)[:200]})
+            return
         # the reader returns the games the file textually denotes
         try:
             denoted = ast.literal_eval(text_in)
@@ -201,7 +205,8 @@ def run(ctx, model=None):
           "transition_list": [[("go\u00a0on", 1), ("go on", 2)], [(1, 4)], [(0.5, 4), (0.5, 3)], [(1, 3)], [(1, 4)]], "final_states": [4]}
     nb_bad = copy.deepcopy(nb)
     nb_bad["players"][0] = "Player\u00a01"
-    check_file(ctx, "nbsp_names_1", render_game_file([("game\u00a0a", nb), ("game a", nb), ("bad", nb_bad)]), model)
+    # repr() escapes U+00A0; a hand-written file contains the character itself
+    check_file(ctx, "nbsp_names_1", render_game_file([("game\u00a0a", nb), ("game a", nb), ("bad", nb_bad)]).replace("\\xa0", "\u00a0"), model)
     # the input given through a symbolic link with another name
     check_file(ctx, "current_2", render_game_file([("g_1", nb)]), model, symlink_target="fork_v3")
     N = 6 if ctx.quick() else 400
